@@ -14,6 +14,10 @@ for every (default_trim, left, right) on generated texts, and the whitespace
 set of the model against CPython's `str.isspace` / `str.strip()` for every
 code point below 0x110000.
 
+Every template is rendered through render() AND render_async() in every
+configuration; the async output must equal the sync output exactly and goes
+through the same oracles.
+
 Direct oracle (failing-input search, on the implementation only):
   * outputs of all marker assignments x default_trim x suppress of one program
     and one data set are equal once whitespace is erased;
